@@ -288,25 +288,31 @@ func (s *v4Server) rmLeaseByIndex(i int) {
 //
 // TODO(s.chzhen):  Refactor the code.
 func (s *v4Server) rmDynamicLease(lease *dhcpsvc.Lease) (err error) {
-	for i, l := range s.leases {
-		isStatic := l.IsStatic
+	// Look for a conflicting static lease first, so that nothing is removed
+	// when the error is returned.
+	for _, l := range s.leases {
+		if l.IsStatic && (bytes.Equal(l.HWAddr, lease.HWAddr) || l.IP == lease.IP) {
+			return errors.Error("static lease already exists")
+		}
+	}
 
+	// Don't use range, since the removal shifts the leases, and the lease
+	// following the removed one must be checked as well.
+	for i := 0; i < len(s.leases); {
+		l := s.leases[i]
 		if bytes.Equal(l.HWAddr, lease.HWAddr) || l.IP == lease.IP {
-			if isStatic {
-				return errors.Error("static lease already exists")
-			}
-
 			s.rmLeaseByIndex(i)
-			if i == len(s.leases) {
-				break
-			}
 
-			l = s.leases[i]
+			continue
 		}
 
-		if !isStatic && l.Hostname == lease.Hostname {
+		if !l.IsStatic && l.Hostname != "" && l.Hostname == lease.Hostname {
+			// Keep the hostnames index in sync.
+			delete(s.hostsIndex, l.Hostname)
 			l.Hostname = ""
 		}
+
+		i++
 	}
 
 	return nil
